@@ -37,7 +37,9 @@ def R1_writers(run):
         ("pinocchio::state::whirlpool::tick_array::tick::MemoryMappedTick", "liquidity_gross"): {"pinocchio::state::whirlpool::tick_array::tick::MemoryMappedTick::update"},
         ("pinocchio::state::whirlpool::tick_array::tick::MemoryMappedTick", "initialized"): {"pinocchio::state::whirlpool::tick_array::tick::MemoryMappedTick::update"},
         ("state::position::Position", "liquidity"): {"state::position::Position::update"},
-        ("pinocchio::state::whirlpool::position::MemoryMappedPosition", "liquidity"): {"pinocchio::state::whirlpool::position::MemoryMappedPosition::set_liquidity"},
+        # (the private setter, or the same store written in `update` itself: C12.R3 ties the stored value to update.liquidity either way)
+        ("pinocchio::state::whirlpool::position::MemoryMappedPosition", "liquidity"): {"pinocchio::state::whirlpool::position::MemoryMappedPosition::set_liquidity",
+                                                                                       "pinocchio::state::whirlpool::position::MemoryMappedPosition::update"},
     }
     for (adt, field), allowed in expect.items():
         ws = {w["fn"].path for w in writes.writers_of(facts, adt, field)}
@@ -233,18 +235,19 @@ def R4_in_range(run):
         conds = set()
         in_call = [c_ for c_ in calls_to(fn, ends("add_liquidity_delta")) if arg_name(c_[2][0]) == "liquidity" and mentions(c_[2][0], lambda s_: s_[0] == "param" and s_[1] == "whirlpool")]
         for at in A.atoms(fn):
-            c = at.cond()
-            if c is None:
-                continue
-            op, a, b = c
-            for (o, x, y) in ((op, a, b), (A.SWAP[op], b, a)):
-                if arg_name(x) == "tick_current_index" and arg_name(y) in ("tick_upper_index", "tick_lower_index") and mentions(y, lambda s_: s_[0] == "param" and s_[1] == "position"):
-                    # which side leads to the add call (and only that side)
-                    tr_ = cfg.reach(fn, at.true_targets[0], cut_blocks=[at.block])
-                    fr_ = cfg.reach(fn, at.false_targets[0], cut_blocks=[at.block])
-                    if in_call and (in_call[0][0] in tr_) != (in_call[0][0] in fr_):
-                        oo = o if in_call[0][0] in tr_ else A.NEG[o]
-                        conds.add("current %s %s" % (oo, arg_name(y)))
+            cj = at.conjuncts()    # a comparison, or the two of `(lower..upper).contains(&current)`
+            for (op, a, b) in cj:
+                for (o, x, y) in ((op, a, b), (A.SWAP[op], b, a)):
+                    if arg_name(x) == "tick_current_index" and arg_name(y) in ("tick_upper_index", "tick_lower_index") and mentions(y, lambda s_: s_[0] == "param" and s_[1] == "position"):
+                        # which side leads to the add call (and only that side)
+                        tr_ = cfg.reach(fn, at.true_targets[0], cut_blocks=[at.block])
+                        fr_ = cfg.reach(fn, at.false_targets[0], cut_blocks=[at.block])
+                        if in_call and (in_call[0][0] in tr_) != (in_call[0][0] in fr_):
+                            if len(cj) > 1 and in_call[0][0] not in tr_:
+                                conds.add("not (%s)" % show(at.term)[:60])    # the add on the outside of a range test
+                                continue
+                            oo = o if in_call[0][0] in tr_ else A.NEG[o]
+                            conds.add("current %s %s" % (oo, arg_name(y)))
         want = {"current Lt tick_upper_index", "current Ge tick_lower_index"}
         run.check("R4", "range-test@" + short, conds == want, "%s adds the delta when %s, expected exactly %s" % (path, sorted(conds), sorted(want)), loc=fn.loc(),
                   detail="lower <= current < upper")
